@@ -10,7 +10,7 @@ CONSTANTS
   MinUnits = 0
   MaxDepth = 1
   MaxActs = 1
-  AllowNeg = TRUE
+  Signs = {"-", "+"}
   AllowCall = TRUE
   AllowList = TRUE
   AllowGroup = TRUE
